@@ -104,6 +104,10 @@ class Ctx:
         self.ax_done = set()
         self.notes = []
         self.bound_stack = []  # z3 Int consts bound by an enclosing Sigma / generic evaluation
+        # opt-in (set by a contract): separate arguments of uninterpreted functions by exact evaluation before
+        # asking the solver.  Only for contracts without equational hypotheses between uninterpreted terms, since
+        # the evaluation ignores the hypotheses.
+        self.numeric_filter = False
         self.bound_guards = []  # range facts of the bound indices on the stack (parallel to bound_stack)
         self.nonneg = {}  # z3 term id -> bool: integer terms known to be >= 0 (no negative-index wrap)
 
